@@ -52,7 +52,7 @@ func c08Bounded(ck *Checker, rep *Report, opts *Options) {
 		}
 	}
 	runBounded(rep, opts, "c08", map[string]string{"ssa/zz_verif_sizes_test.go": "harness/c08_sizes_test.go"}, []string{"./ssa/"}, "TestZZVerifSizes",
-		[]string{"VERIF_C08=1", "VERIF_C08_WASM=" + wasm, "VERIF_TIER=" + opts.Tier}, 12, "sizes-agree",
+		[]string{"VERIF_C08=1", "VERIF_C08_WASM=" + wasm, "VERIF_TIER=" + opts.Tier}, 13, "sizes-agree",
 		"every basic kind; pointer, slice, map, chan, func, interface; arrays of length 0/1/3 and all structs of one and two fields over a 14-type alphabet mixing every alignment class, strings, function values, nested structs; all three-field structs over a 6-type alphabet; nested and array-of padded structs followed by a small field; zero-size tail fields; a named struct; complex numbers in arrays in structs, arrays of arrays, three-level nesting, interface/chan/map fields between small fields; the emitted struct/array descriptors (header sizes, per-field offsets) of the whole family; 121 map types whose keys/elems range from 1 to 300 bytes (descriptor KeySize/ValueSize/BucketSize vs the bucket layout) - on the host data layout (8-byte pointers) and on wasm32 with StdSizes{"+wasm+"} as internal/build/build.go configures it",
 		"-tags", "llvm14")
 }
